@@ -52,6 +52,9 @@ void generate(sim::Rng &r, uint64_t seed, const std::string &tier, sim::Plan &p)
     op.a = {(long)r.below(7), r.range(0, 99), ver, conn, bl, (long)r.below(3), r.range(0, 8), r.range(0, 4)};
     p.ops.push_back(op);
   }
+  // a first connection sends the first `reconn` requests and hangs up at once (their handlers may still be pending);
+  // a second connection then sends the rest: it must get its own responses and nothing else
+  if (!hostile && nreq >= 2 && r.chance(250)) p.cfg["reconn"] = r.range(1, nreq - 1);
   int nseg = (int)r.range(1, 12);
   for (int i = 0; i < nseg; ++i) {
     sim::Op op; op.kind = "seg";
@@ -81,7 +84,7 @@ void generate(sim::Rng &r, uint64_t seed, const std::string &tier, sim::Plan &p)
   p.sched.strategy = "none";
 }
 
-struct Truth { std::string canon; bool closing; long hmode, hdelay; };
+struct Truth { std::string canon; bool closing; long hmode, hdelay; size_t end_off = 0; };
 
 std::string build_stream(const sim::Plan &plan, std::vector<Truth> &truth) {
   std::string s;
@@ -124,6 +127,7 @@ std::string build_stream(const sim::Plan &plan, std::vector<Truth> &truth) {
     t.closing = v10 ? (conn != 2) : (conn == 1);
     t.hmode = ((op.arg(5) % 3) + 3) % 3;
     t.hdelay = std::max(0L, std::min(50L, op.arg(6)));
+    t.end_off = s.size();
     truth.push_back(t);
     ++idx;
   }
@@ -260,6 +264,74 @@ Delivery deliver(const sim::Plan &plan, const std::string &stream, std::vector<T
   return d;
 }
 
+bool parse_responses(const std::string &rx, std::vector<std::string> &bodies, std::string &err);
+
+// two connections one after the other (see generate): returns what the second connection received
+Delivery deliver_two(const sim::Plan &plan, const std::string &stream, std::vector<Truth> &truth, size_t k) {
+  W = World();
+  W.truth = &truth;
+  W.loop = Loop::New(plan.get("backend") ? "select" : "epoll");
+  W.tp = new eventx::TimerPool(W.loop);
+  W.server = new Server(W.loop);
+  W.path = std::string(sim::run_dir()) + "/h2.sock";
+  if (!W.server->initialize(network::SockAddr::FromString(W.path), 4)) { fprintf(stderr, "http init failed\n"); _exit(3); }
+  W.server->use(handler);
+  W.server->start();
+  static drv::Timeline tl;
+  tl = drv::Timeline();
+  static std::string S; S = stream;
+  size_t split = truth[k - 1].end_off;
+  auto connect_client = [] {
+    int fd = socket(AF_UNIX, SOCK_STREAM, 0);
+    struct sockaddr_un sa; memset(&sa, 0, sizeof sa); sa.sun_family = AF_UNIX;
+    strncpy(sa.sun_path, W.path.c_str(), sizeof(sa.sun_path) - 1);
+    if (sim::raw::connect(fd, (struct sockaddr *)&sa, sizeof sa) != 0) { perror("connect"); _exit(3); }
+    int fl = fcntl(fd, F_GETFL); fcntl(fd, F_SETFL, fl | O_NONBLOCK);
+    W.cfd = fd;
+  };
+  auto send_range = [](size_t a, size_t b) {
+    size_t done = a;
+    while (done < b) { ssize_t w = sim::raw::send(W.cfd, S.data() + done, b - done, MSG_NOSIGNAL); if (w <= 0) break; done += (size_t)w; }
+    sim::trace("client: sent %zu..%zu (%zu)", a, b, done - a);
+  };
+  int64_t t = sim::now_ns();
+  tl.at(t, [connect_client] { sim::fault_scope(0, 0); connect_client(); });
+  t += 1000000; tl.at(t, [send_range, split] { send_range(0, split); });
+  t += 1000000; tl.at(t, [] { close(W.cfd); W.cfd = -1; sim::trace("client: first connection hangs up"); });
+  t += 1000000; tl.at(t, [connect_client] { connect_client(); W.rx.clear(); W.server_eof = false; });
+  t += 1000000; tl.at(t, [send_range, split] { send_range(split, S.size()); });
+  for (int i = 0; i < 120; ++i) { t += 1000000; tl.at(t, [] { client_read_all(); }); }
+  t += 1000000;
+  tl.at(t, [] { W.loop->runInLoop([] { W.loop->exitLoop(); }, "c12.exit"); });
+  tl.install();
+  W.loop->runLoop(Loop::Mode::kForever);
+  sim::set_prewait_hook(nullptr);
+  client_read_all();
+  Delivery d;
+  d.handled = W.handled; d.rx = W.rx; d.server_eof = W.server_eof; d.client_closed = false;
+  delete W.server;
+  delete W.tp;
+  delete W.loop;
+  if (W.cfd >= 0) close(W.cfd);
+  return d;
+}
+
+void check_second_connection(const Delivery &d, const std::vector<Truth> &truth, size_t k) {
+  int close_idx = -1;
+  for (size_t i = k; i < truth.size(); ++i) if (truth[i].closing) { close_idx = (int)i; break; }
+  size_t expect_end = close_idx >= 0 ? (size_t)close_idx + 1 : truth.size();
+  if (d.handled.size() < expect_end) { sim::violation("C12/request-not-delivered", sim::fmt("two connections: %zu requests reached the handler, %zu were sent before and on the second connection", d.handled.size(), expect_end)); return; }
+  std::vector<std::string> bodies; std::string err;
+  if (!parse_responses(d.rx, bodies, err)) { sim::violation("C12/response-stream-malformed", sim::fmt("second connection: %s", err.c_str())); return; }
+  for (size_t i = 0; i < bodies.size(); ++i) {
+    std::string want = "R" + std::to_string(k + i) + ";";
+    if (bodies[i] != want) { sim::violation("C12/response-order", sim::fmt("second connection: response #%zu on the wire is '%s', expected '%s' (a response belongs on the connection its request came from)", i, bodies[i].substr(0, 20).c_str(), want.c_str())); return; }
+  }
+  if (bodies.size() < expect_end - k) { sim::violation("C12/response-missing", sim::fmt("second connection: %zu of %zu responses were written by the time the run was quiescent", bodies.size(), expect_end - k)); return; }
+  if (bodies.size() > expect_end - k) { sim::violation("C12/response-after-close", "second connection: more responses than requests up to the closing one"); return; }
+  if (close_idx >= 0 && !d.server_eof) sim::violation("C12/connection-not-closed", "second connection: the response to the closing request was sent but the server did not close the connection");
+}
+
 // parse the concatenated responses; returns bodies; `trailing` = bytes that do not form a complete response
 bool parse_responses(const std::string &rx, std::vector<std::string> &bodies, std::string &err) {
   size_t pos = 0;
@@ -369,6 +441,11 @@ void execute(const sim::Plan &plan) {
     size_t v1 = sim::violation_count();
     check_delivery("segmented", seg, truth);
     if (v1 == v0 && sim::violation_count() > v1) sim::probe("segmentation_dependent", 1);
+  }
+  if (!hostile && sim::violation_count() == 0 && plan.get("reconn") > 0) {
+    size_t k = (size_t)std::min<long>((long)truth.size() - 1, plan.get("reconn"));
+    bool closing_in_first = false; for (size_t i = 0; i < k; ++i) if (truth[i].closing) closing_in_first = true;
+    if (k >= 1 && !closing_in_first) { Delivery two = deliver_two(plan, stream, truth, k); check_second_connection(two, truth, k); sim::probe("two_connection_runs"); }
   }
   sim::probe("requests_handled", (long)(whole.handled.size() + seg.handled.size()));
   sim::finish();
